@@ -20,6 +20,13 @@ OptsOf(name) ==
     [] name = "single_pct" -> [DefaultOpts EXCEPT !.singlePct = TRUE]
     [] name = "skip_drive" -> [DefaultOpts EXCEPT !.skipDrive = TRUE]
     [] name = "skip_trailing" -> [DefaultOpts EXCEPT !.skipTrail = TRUE]
+    [] name = "lax_host"   -> [DefaultOpts EXCEPT !.lax = TRUE]
+    [] name = "accept_invalid" -> [DefaultOpts EXCEPT !.acceptInvalid = TRUE]
+    [] name = "latin1"     -> [DefaultOpts EXCEPT !.latin1 = TRUE]
+    [] name = "pre_host_trim"  -> [DefaultOpts EXCEPT !.preHost = "trim"]
+    [] name = "pre_host_const" -> [DefaultOpts EXCEPT !.preHost = "const"]
+    [] name = "post_host_const" -> [DefaultOpts EXCEPT !.postHost = "const"]
+    [] name = "allow_path_nonbase" -> DefaultOpts          \* the option is never consulted by the code
     [] OTHER -> DefaultOpts
 ExactOptions == {"special_gopher", "set_path", "set_query", "set_squery", "set_frag", "set_sfrag"}
 
